@@ -16,7 +16,11 @@ fn main() {
     match a[1].as_str() {
         "C03" => c03::run(seed, n, replay, &mut out),
         "C05" => c05::run(seed, n, replay, &mut out),
+        "C06" => c06::run(seed, n, replay, &mut out),
         "C13" => c13::run(seed, n, replay, &mut out),
+        "C27" => c27::run(seed, n, replay, &mut out),
+        "C32" => c32::run(seed, n, replay, &mut out),
+        "C04" => c04::run(seed, n, replay, &mut out),
         other => {
             eprintln!("unknown component {other}");
             std::process::exit(2);
